@@ -7,7 +7,7 @@ from ..common import subseed
 from .doc import gen_doc, profile
 
 ROTATION = ['default', 'splitty', 'texty', 'kern_only', 'default', 'kern_core', 'simple', 'splitty',
-            'default', 'many_spines', 'texty', 'long_tokens', 'kern_only', 'wide_split', 'tiny', 'default',
+            'no_kern', 'many_spines', 'texty', 'long_tokens', 'kern_only', 'wide_split', 'tiny', 'default',
             'splitty', 'default', 'texty', 'kern_core', 'simple', 'default', 'kern_only', 'many_measures']
 
 
